@@ -31,6 +31,15 @@ func hSymInstant(tag string) hInstant {
 	return hInstant{s, n}
 }
 
+// hSymSecond draws an arbitrary instant at a whole second (the composition harnesses use these; sub-second and
+// monotonic readings are covered for the same comparison functions by H01b).
+func hSymSecond(tag string) hInstant {
+	vTag(tag + ".sec")
+	s := vI64()
+	vAssume(s >= -hSecBound && s <= hSecBound)
+	return hInstant{s, 0}
+}
+
 // wall clock time as produced by parsing a document (no monotonic reading)
 func (i hInstant) time() time.Time { return time.Unix(i.sec, i.nsec).UTC() }
 
